@@ -432,18 +432,21 @@ impl<'data> TlvStateMut<'data> {
 
         let discriminator = ArrayDiscriminator::try_from(&self.data[type_start..length_start])?;
         if discriminator == ArrayDiscriminator::UNINITIALIZED {
+            // check that the value fits before writing anything, so that a
+            // failed allocation leaves the buffer untouched
+            let value_end = value_start.saturating_add(length);
+            if self.data.len() < value_end {
+                return Err(ProgramError::InvalidAccountData);
+            }
+            let new_length = Length::try_from(length)?;
             // write type
             let discriminator_ref = &mut self.data[type_start..length_start];
             discriminator_ref.copy_from_slice(V::SPL_DISCRIMINATOR.as_ref());
             // write length
             let length_ref =
                 pod_from_bytes_mut::<Length>(&mut self.data[length_start..value_start])?;
-            *length_ref = Length::try_from(length)?;
+            *length_ref = new_length;
 
-            let value_end = value_start.saturating_add(length);
-            if self.data.len() < value_end {
-                return Err(ProgramError::InvalidAccountData);
-            }
             Ok((
                 &mut self.data[value_start..value_end],
                 value_repetition_number,
